@@ -10,7 +10,7 @@ EXPLANATION = ('Lean theorems over the model of MwpBound.bound_poly/bound_str/pa
                'string equality between model rendering and pymwp on every enumerated triple.')
 ASSUMPTIONS = ['variable names are C identifiers (no , ; + * parentheses)']
 
-NAMES = ['a', 'b', 'x1', 'x10', 'y', 'zz', 'max', 'n0', 'B']
+NAMES = ['a', 'b', 'x1', 'x10', 'y', 'zz', 'maxi', 'n0', 'B']   # `max` itself is reserved by the reader of the printed text
 
 
 def run(ctx):
